@@ -192,6 +192,24 @@ fn one_case(ctx: &Ctx, case: u64, l: &mut Local) {
             detail: json!({"token": token_desc, "calls": format!("{:?}", control.resolver_calls), "expected": {"iss": t.iss, "alg": want_alg}}),
         });
     }
+    // the header the resolver was handed is the ISSUER JWT's own (not, e.g., the KB-JWT's)
+    if let (Some(call), Ok(hraw)) = (control.resolver_calls.first(), crate::model::b64d(&tamper::segments(&t.parts.jwt).unwrap()[0])) {
+        if let Ok(own) = serde_json::from_slice::<Value>(&hraw) {
+            let seen = &call.header;
+            let differs = ["alg", "typ", "kid", "cty"].iter().any(|k| own.get(*k).filter(|v| !v.is_null()) != seen.get(*k).filter(|v| !v.is_null()));
+            if differs {
+                l.violate(Violation {
+                    subcheck: "resolver-invocation".into(),
+                    class: format!("control (kb_jwt present: {})", t.parts.kb.is_some()),
+                    observed: "resolver was handed a header that is not the issuer-signed JWT's".into(),
+                    case,
+                    detail: json!({"token": token_desc, "issuer_jwt_header": own, "resolver_saw": seen}),
+                });
+            } else {
+                l.count("resolver.header.checked");
+            }
+        }
+    }
     let mut j = Judge {
         case,
         l,
@@ -540,6 +558,72 @@ fn one_case(ctx: &Ctx, case: u64, l: &mut Local) {
             let forged = api::sign_raw(&hdr, &payload, ha.jwt(), &keys::holder_enc(ha, hidx));
             structural(&mut j, &format!("resigned-with-key-announced-in-header-{}", ha.name()), Some(forged), &fixed);
         }
+    }
+    // ---- look-alikes of the `iss` member in the payload (other case, blanks) naming another issuer,
+    // placed before / after the real one: the resolver is asked for the member called exactly "iss"
+    if t.kb.is_none() && t.iss.ends_with("/A") {
+        let payload: Value = t.parts.payload().unwrap_or(Value::Null);
+        for (k, twin) in ["ISS", "Iss", "iss ", " iss", "iSs", "issuer", "iss\u{0}"].iter().enumerate() {
+            for first in [true, false] {
+                let mut m = serde_json::Map::new();
+                if first {
+                    m.insert(twin.to_string(), json!("https://issuer.example/B"));
+                }
+                for (kk, vv) in payload.as_object().cloned().unwrap_or_default() {
+                    m.insert(kk, vv);
+                }
+                if !first {
+                    m.insert(twin.to_string(), json!("https://issuer.example/B"));
+                }
+                let mut q = t.parts.clone();
+                q.jwt = api::sign_payload(alg, 1, &Value::Object(m), None);
+                let v = verify_parts(&t, &q, &Resolver::ByIss(alg));
+                if let Some(v) = &v {
+                    if let Some(c) = v.resolver_calls.first() {
+                        if c.iss != t.iss {
+                            j.l.violate(Violation { subcheck: "resolver-invocation".into(), class: "look-alike of the iss member".into(), observed: "resolver asked for the value of a member that is not called iss".into(), case, detail: json!({"payload_iss": t.iss, "look_alike_member": twin, "resolver_was_asked_for": c.iss}) });
+                        }
+                    }
+                }
+                j.l.count("fault.structural.kind.iss-look-alike-member");
+                j.l.distinct(crate::rng::mix(case ^ gen::hash_str("iss-twin") ^ ((k as u64) << 1) ^ first as u64));
+                j.reject("structural", &format!("signed by issuer B's key, a member looking like iss says B, iss says A ({} {})", alg.name(), fmt.name()), v, || json!({"member": twin, "first": first}));
+            }
+        }
+    }
+    // ---- two tokens with the SAME kid in one process: the key is whatever the resolver answers for
+    // THIS verification, not what an earlier verification under that kid used
+    if t.kb.is_none() {
+        let payload: Value = t.parts.payload().unwrap_or(Value::Null);
+        let kid = format!("shared-kid-{}", case % 3);
+        let hdr = json!({"alg": alg.name(), "kid": kid});
+        let mut q = t.parts.clone();
+        q.jwt = api::sign_raw(&hdr, &payload, alg.jwt(), &keys::issuer_enc(alg, 0));
+        // accepted under key 0 ...
+        if let Some(v) = verify_parts(&t, &q, &fixed) {
+            j.l.evals += 1;
+            if v.out.is_ok() {
+                j.l.count("control.kid-token.accepted");
+            }
+        }
+        // ... then the resolver's answer for the same token changes (key rotation): refused
+        let v = verify_parts(&t, &q, &Resolver::Fixed(alg, 1));
+        j.l.count("fault.structural.kind.same-kid-resolver-answer-changed");
+        j.reject("structural", &format!("token with a kid seen before, resolver now answers with another key ({} {})", alg.name(), fmt.name()), v, || json!({"kid": kid}));
+        // ... and another token with the same kid, signed by key 1, while the resolver still says key 0
+        let mut evil = payload.clone();
+        evil["admin#kid;"] = json!(true);
+        let mut q2 = t.parts.clone();
+        q2.jwt = api::sign_raw(&hdr, &evil, alg.jwt(), &keys::issuer_enc(alg, 1));
+        let v1 = verify_parts(&t, &q2, &Resolver::Fixed(alg, 1)); // accepted under key 1 (control)
+        if let Some(v1) = v1 {
+            j.l.evals += 1;
+            if v1.out.is_ok() {
+                j.l.count("control.kid-token.accepted");
+            }
+        }
+        let v = verify_parts(&t, &q2, &fixed);
+        j.reject("structural", &format!("same kid as an accepted token, signed by another key ({} {})", alg.name(), fmt.name()), v, || json!({"kid": kid}));
     }
     // ---- claims replicated as header parameters (RFC 7519 §5.3): a header `iss` that names another
     // issuer must not redirect the key look-up; the resolver is asked for the PAYLOAD's iss
